@@ -15,6 +15,10 @@ CLAIMED = {
          "row by row with the reference predicate (complete for each argument group against a valid default of the others); "
          "dominance of the validation prefix; accepted enum values and graph sources are handled by every consumer", "4 C20",
          "decision-table extraction by abstract evaluation of the AST + finite-domain propagation + value-flow reachability (R-TABLE, R-ORDER, R-ENUM)"),
+ "C11": ("complete decision of the ShExC<->SHACL mapping clauses: per statement kind, cardinality class and direction the triples the "
+         "SHACL serialiser emits are extracted from its source and compared with the reference mapping of the ShExC rendering; "
+         "table rows, emission-loop totality, normaliser agreement, no mutation of the shared model", "4 C11",
+         "decision/emission-table extraction by abstract evaluation of the AST, constant-table comparison, value-flow slices (R-TABLE, R-CONST, R-EMIT, R-LOOP, R-FLOW, R-PURE)"),
 }
 NA_REASON = {
  "C08": "relates the outputs of different parsers (rdflib readers, two hand-written scanners, TSV splitter, decompressors) on "
